@@ -314,31 +314,106 @@ func ReadRequest(client *http.Client, proxyHost, backendID, requestID string, ca
 }
 
 func newBufferedReadSeeker(r io.Reader, bufSize int) *bufferedReadSeeker {
-	return &bufferedReadSeeker{
-		r:         r,
-		buf:       make([]byte, bufSize),
-		writeHead: 0,
-		readHead:  0,
+	b := &bufferedReadSeeker{
+		r:   r,
+		buf: make([]byte, bufSize),
 	}
+	b.cond = sync.NewCond(&b.mu)
+	return b
 }
 
+// errStaleAttempt is reported to a reader that belongs to an attempt which has been
+// given up (the stream has been rewound for the next attempt in the meantime).
+var errStaleAttempt = errors.New("the stream has been rewound for another attempt")
+
+// bufferedReadSeeker hands out a stream and remembers its first len(buf) bytes, so
+// that the stream can be replayed from its start as long as no more than that has
+// been handed out.
+//
+// The readers of successive attempts (see `attemptBody`) can overlap in time: the HTTP
+// transport may still be reading the body of a request from a goroutine of its own
+// after the call that sent the request has returned. A reader of an earlier attempt
+// gets `errStaleAttempt` as soon as the stream has been rewound. If it is blocked
+// reading from the source at that moment, whatever it reads is kept for the current
+// attempt instead of being handed to the stale one, so rewinding never has to wait
+// for the source to produce more data.
 type bufferedReadSeeker struct {
-	r         io.Reader
-	buf       []byte
-	writeHead int
-	readHead  int
+	r io.Reader
+
+	mu   sync.Mutex
+	cond *sync.Cond
+
+	buf       []byte // the start of the stream
+	writeHead int    // number of bytes of the stream held in buf
+	tail      []byte // the bytes most recently read from the source
+	tailStart int    // position in the stream of tail[0]
+	produced  int    // number of bytes read from the source so far
+	srcErr    error  // the error reported by the source, once it reported one
+	filling   bool   // a read from the source is in flight
+
+	readHead int // position in the stream of the current attempt
+	maxRead  int // highest position handed out to any attempt
+	attempt  int // incremented every time the stream is rewound
 }
 
 func (b *bufferedReadSeeker) Read(p []byte) (int, error) {
-	// Read from buffer.
-	readFromBuf := copy(p, b.buf[b.readHead:b.writeHead])
-	b.readHead += readFromBuf
-	// Read from wrapped source and write to buffer.
-	readFromSource, err := b.r.Read(p[readFromBuf:])
-	written := copy(b.buf[b.writeHead:], p[readFromBuf:(readFromBuf+readFromSource)])
-	b.writeHead += written
-	b.readHead += written
-	return readFromBuf + readFromSource, err
+	b.mu.Lock()
+	attempt := b.attempt
+	b.mu.Unlock()
+	return b.readAttempt(attempt, p)
+}
+
+// readAttempt implements `Read` on behalf of the given attempt.
+func (b *bufferedReadSeeker) readAttempt(attempt int, p []byte) (int, error) {
+	if len(p) == 0 {
+		return 0, nil
+	}
+	b.mu.Lock()
+	defer b.mu.Unlock()
+	for {
+		if attempt != b.attempt {
+			return 0, errStaleAttempt
+		}
+		if b.readHead < b.produced {
+			n := 0
+			if b.readHead < b.writeHead {
+				// Replay from the buffer.
+				n = copy(p, b.buf[b.readHead:b.writeHead])
+			}
+			if off := b.readHead + n - b.tailStart; b.readHead+n >= b.writeHead && off >= 0 && off < len(b.tail) {
+				n += copy(p[n:], b.tail[off:])
+			}
+			if n == 0 {
+				// Cannot happen: everything handed out beyond the buffer is in the tail.
+				return 0, errors.New("the stream can no longer be read from this position")
+			}
+			b.readHead += n
+			if b.readHead > b.maxRead {
+				b.maxRead = b.readHead
+			}
+			return n, nil
+		}
+		if b.srcErr != nil {
+			return 0, b.srcErr
+		}
+		if b.filling {
+			// Some (possibly stale) reader is already reading from the source.
+			b.cond.Wait()
+			continue
+		}
+		// Read from the wrapped source, without holding the lock.
+		b.filling = true
+		b.mu.Unlock()
+		chunk := make([]byte, len(p))
+		n, err := b.r.Read(chunk)
+		b.mu.Lock()
+		b.filling = false
+		b.tail, b.tailStart = chunk[:n], b.produced
+		b.writeHead += copy(b.buf[b.writeHead:], chunk[:n])
+		b.produced += n
+		b.srcErr = err
+		b.cond.Broadcast()
+	}
 }
 
 func (b *bufferedReadSeeker) Seek(offset int64, whence int) (int64, error) {
@@ -348,10 +423,14 @@ func (b *bufferedReadSeeker) Seek(offset int64, whence int) (int64, error) {
 	if offset < 0 || offset >= int64(len(b.buf)) {
 		return 0, errors.New("invalid offset value")
 	}
-	if b.writeHead >= len(b.buf) {
+	b.mu.Lock()
+	defer b.mu.Unlock()
+	if b.maxRead >= len(b.buf) {
 		return 0, errors.New("cannot seek, possible buffer overflow")
 	}
 	b.readHead = int(offset)
+	b.attempt++
+	b.cond.Broadcast()
 	return int64(b.readHead), nil
 }
 
@@ -359,20 +438,24 @@ func (b *bufferedReadSeeker) Seek(offset int64, whence int) (int64, error) {
 //
 // The HTTP transport can keep reading the body of a request from a separate goroutine
 // even after the call that sent the request has returned (for instance, when the server
-// responds before it has read the entire request), but it always closes the body once
-// it is done with it. The `done` channel is closed when that happens.
+// responds before it has read the entire request). Once the stream has been rewound for
+// the next attempt, such a reader is turned away instead of consuming any more of it.
 type attemptBody struct {
-	io.Reader
-	done     chan struct{}
-	doneOnce sync.Once
+	stream  *bufferedReadSeeker
+	attempt int
 }
 
-func newAttemptBody(r io.Reader) *attemptBody {
-	return &attemptBody{Reader: r, done: make(chan struct{})}
+func newAttemptBody(stream *bufferedReadSeeker) *attemptBody {
+	stream.mu.Lock()
+	defer stream.mu.Unlock()
+	return &attemptBody{stream: stream, attempt: stream.attempt}
+}
+
+func (b *attemptBody) Read(p []byte) (int, error) {
+	return b.stream.readAttempt(b.attempt, p)
 }
 
 func (b *attemptBody) Close() error {
-	b.doneOnce.Do(func() { close(b.done) })
 	return nil
 }
 
@@ -394,9 +477,8 @@ func postResponseWithRetries(client *http.Client, proxyURL, backendID, requestID
 		attemptReq.Body = attemptBody
 		verifhook.At("utils.post.attempt")
 		if proxyResp, err = client.Do(attemptReq); err != nil {
-			// We must not rewind (or read from) the underlying reader
-			// while the failed attempt might still be reading from it.
-			<-attemptBody.done
+			// The failed attempt might still be reading its body; rewinding
+			// the stream turns that reader away.
 			if _, seekErr := proxyReadSeeker.Seek(0, io.SeekStart); seekErr != nil {
 				return err
 			}
@@ -404,7 +486,6 @@ func postResponseWithRetries(client *http.Client, proxyURL, backendID, requestID
 		}
 		proxyResp.Body.Close()
 		if 500 <= proxyResp.StatusCode && proxyResp.StatusCode < 600 {
-			<-attemptBody.done
 			if _, seekErr := proxyReadSeeker.Seek(0, io.SeekStart); seekErr != nil {
 				return err
 			}
